@@ -23,12 +23,14 @@ import (
 type opR struct {
 	Kind string `json:"kind"` // delbucket | put | mpucreate | mpucomplete | mkbucket | get
 	Key  int    `json:"key"`
+	By   string `json:"by,omitempty"` // mkbucket: the account creating the bucket ("" = root)
 }
 
 type caseR struct {
 	Ops      []opR `json:"ops"`
 	Schedule []int `json:"schedule"`
 	Versions bool  `json:"versioned"` // bucket versioning enabled
+	Fresh    bool  `json:"fresh"`     // the bucket does not exist when the race starts (competing creations)
 }
 
 var raceKeys = []string{"a", "dir/b"}
@@ -45,6 +47,9 @@ func execR(c caseR) (overlap bool, err error) {
 	b := fmt.Sprintf("race-%d", raceNo)
 	cl := s3c.NewClient(eng, gw.DefaultRoot)
 	verifhook.SetHandler(nil)
+	if c.Fresh {
+		return execFresh(c, b, cl)
+	}
 	if r := cl.MustCall("PUT", "/"+b, nil, nil, nil); !r.OK() {
 		return false, fmt.Errorf("SETUP: create: %v", r)
 	}
@@ -200,6 +205,92 @@ func execR(c caseR) (overlap bool, err error) {
 	return overlap, nil
 }
 
+// execFresh: several accounts create the same (new) bucket at once. Exactly one creation may be acknowledged,
+// and the bucket must end up owned by that account with that account's ACL.
+func execFresh(c caseR, b string, cl *s3c.Client) (overlap bool, err error) {
+	s := sched.New(len(c.Ops))
+	s.Filter = func(_ int, point string, args []string) bool {
+		return len(args) > 0 && args[0] == b && !(strings.HasPrefix(point, "meta.get") && false)
+	}
+	verifhook.SetHandler(s.Hook)
+	defer verifhook.SetHandler(nil)
+	who := func(o opR) s3c.Creds {
+		if o.By == "" || o.By == "root" {
+			return gw.DefaultRoot
+		}
+		return creds(o.By)
+	}
+	res, moves, overlap, serr := s.Run(func(i int) any {
+		o := c.Ops[i]
+		var r *s3c.Resp
+		var err error
+		switch o.Kind {
+		case "mkbucket":
+			r, err = cl.As(who(o)).Call("PUT", "/"+b, nil, nil, nil)
+		case "delbucket":
+			r, err = cl.Call("DELETE", "/"+b, nil, nil, nil)
+		default:
+			r, err = cl.Call("HEAD", "/"+b, nil, nil, nil)
+		}
+		if err != nil {
+			return err
+		}
+		return r
+	}, c.Schedule)
+	verifhook.SetHandler(nil)
+	if serr != nil {
+		return overlap, serr
+	}
+	var hist strings.Builder
+	var winners []string
+	deleted := false
+	for i, r := range res {
+		if e, ok := r.Val.(error); ok {
+			return overlap, fmt.Errorf("SETUP: transport: %v", e)
+		}
+		rp := r.Val.(*s3c.Resp)
+		fmt.Fprintf(&hist, "\n  op%d %s by %q: [%d,%d] -> %d %s", i, c.Ops[i].Kind, c.Ops[i].By, r.Call, r.Return, rp.Status, rp.Code())
+		if c.Ops[i].Kind == "mkbucket" && rp.OK() {
+			w := c.Ops[i].By
+			if w == "" {
+				w = "root"
+			}
+			winners = append(winners, w)
+		}
+		if c.Ops[i].Kind == "delbucket" && rp.Status == 204 {
+			deleted = true
+		}
+	}
+	hist.WriteString("\n  schedule:")
+	for _, m := range moves {
+		fmt.Fprintf(&hist, " op%d:%s", m.Op, m.What)
+	}
+	if deleted {
+		return overlap, nil // a deletion in between makes a second creation legitimate
+	}
+	if len(winners) > 1 {
+		return overlap, fmt.Errorf("the creation of one bucket was acknowledged to %d accounts (%v): creating a bucket that already exists must fail%s", len(winners), winners, hist.String())
+	}
+	if len(winners) == 1 {
+		// the owner recorded is the account whose creation was acknowledged
+		var lb s3c.ListBucketsResult
+		for _, n := range []string{"alice", "bob", "carol"} {
+			r := cl.As(creds(n)).MustCall("GET", "/", nil, nil, nil)
+			if !r.OK() || s3c.ParseXML(r, &lb) != nil {
+				continue
+			}
+			owns := false
+			for _, bk := range lb.Buckets {
+				owns = owns || bk.Name == b
+			}
+			if owns != (n == winners[0]) && !isAdmin(n) {
+				return overlap, fmt.Errorf("the bucket was created by %s, but ListBuckets of %s shows it: %v%s", winners[0], n, owns, hist.String())
+			}
+		}
+	}
+	return overlap, nil
+}
+
 func TestC16Race(t *testing.T) {
 	ev.Check(t, "C16R", func(t *rapid.T) {
 		var c caseR
@@ -213,6 +304,14 @@ func TestC16Race(t *testing.T) {
 		k := rapid.IntRange(0, n-1).Draw(t, "delpos")
 		c.Ops[0], c.Ops[k] = c.Ops[k], c.Ops[0]
 		c.Schedule = rapid.SliceOfN(rapid.IntRange(0, 5), 0, 100).Draw(t, "schedule")
+		if rapid.IntRange(0, 3).Draw(t, "fresh") == 0 {
+			// competing creations of a bucket that does not exist yet
+			c.Fresh = true
+			c.Ops = nil
+			for i := 0; i < n; i++ {
+				c.Ops = append(c.Ops, opR{Kind: "mkbucket", By: rapid.SampledFrom([]string{"root", "carol", "carol", "dave", "alice"}).Draw(t, "by")})
+			}
+		}
 		ev.Trace("C16R", c)
 		overlap, err := execR(c)
 		shape := ""
